@@ -1074,3 +1074,198 @@ Proof.
   destruct (Nat.ltb_spec (bused b) (off + len + cnt * esz));
     list_eq_k ltac:(fun i => split_at i len).
 Qed.
+
+Definition whint (cnt : nat) (acc : bool) : hint := mkhint false false false 0 cnt acc.
+
+Definition wval (hp : heap) (a : arr) (off len : nat) : sval :=
+  match a with
+  | None => None
+  | Some i => option_map (fun b => (btr b, win b off len)) (hget hp i)
+  end.
+
+Definition sres_ok (hp : heap) (a : arr) (v : sval) (nblk esz : nat) (from : bool) (d : list byte) (r : sres) : Prop :=
+  match r with
+  | SDone hp1 a1 off len n =>
+    ptrans hp a hp1 a1 /\
+    s_write (whint (if esz =? 0 then 0 else n) true) v nblk esz from d =
+      (wval hp1 a1 off len, ODone (if esz =? 0 then 0 else n) 0)
+  | SRefused hp1 a1 off len =>
+    ptrans hp a hp1 a1 /\ s_write (whint 0 false) v nblk esz from d = (v, ORefused) /\ wval hp1 a1 off len = v
+  | SFault => False
+  end.
+
+Lemma slow_write_some hp i b off len nblk esz from d :
+  hget hp i = Some b -> buf_wf b -> btr b = 0 -> off + len <= bused b -> esz <> 0 ->
+  sres_ok hp (Some i) (Some (0, win b off len)) nblk esz from d
+    (slow_write hp (Some i) off len nblk (norm (nblk * esz) from d)).
+Proof.
+  intros E W Tr Hw He. unfold slow_write. rewrite E. pose proof W as [L [U A]].
+  rewrite rd_ok by lia. cbn [bind].
+  pose proof (filled_buf_sem (slice off len (bdata b) ++ norm (nblk * esz) from d)) as F.
+  destruct (filled_buf _) as [nb| |]; try contradiction.
+  destruct F as [F1 [F2 [F3 [F4 F5]]]]. cbn [sres_ok]. split.
+  - apply (P_fresh0 hp (Some i)); assumption.
+  - rewrite (proj2 (Nat.eqb_neq esz 0) He). unfold s_write, whint. cbn [hcnt negb Nat.eqb].
+    rewrite (proj2 (Nat.eqb_neq esz 0) He), Nat.ltb_irrefl. unfold Dn. f_equal.
+    unfold wval. rewrite hget_app_r by (rewrite length_hunref; lia).
+    rewrite length_hunref, Nat.sub_diag. cbn [hget nth_error option_map]. rewrite F3. f_equal. f_equal.
+    unfold win. rewrite F4. simpl skipn. rewrite norm_length.
+    rewrite firstn_all2 with (l := norm _ _ _) by (rewrite norm_length; lia).
+    assert (Sl : slice off len (bdata b) = firstn len (skipn off (bview b))).
+    { unfold slice, bview. list_eq. }
+    rewrite Sl. symmetry. apply firstn_all2. rewrite app_length, norm_length, firstn_length, skipn_length.
+    rewrite (bview_length _ W). lia.
+Qed.
+
+Lemma s_write_done0 v nblk from d acc : nblk = 0 \/ (from = false /\ acc = true /\ v <> None) ->
+  s_write (whint 0 acc) v nblk 0 from d = (v, ODone 0 0).
+Proof.
+  intros H. unfold s_write, whint. cbn [hacc Nat.eqb].
+  destruct v as [[t l]|].
+  - destruct (negb (t =? 0)) eqn:T.
+Abort.
+
+Lemma slice_write_sem hp a off0 len0 nblk esz from d : aok hp a ->
+  sres_ok hp a (wval hp a off0 len0) nblk esz from d (slice_write hp a off0 len0 nblk esz from d).
+Proof.
+  intros OK. unfold slice_write. destruct a as [i|].
+  - destruct (OK i eq_refl) as [b [E [W R]]]. rewrite E. cbn [negb].
+    assert (V0 : wval hp (Some i) off0 len0 = Some (btr b, win b off0 len0)) by (unfold wval; rewrite E; reflexivity).
+    rewrite V0.
+    destruct (Nat.eqb_spec (btr b) 0) as [Tr|Tr]; cbn [negb].
+    2:{ cbn [sres_ok]. split; [apply P_same|]. split; [|exact V0].
+        unfold s_write. rewrite (proj2 (Nat.eqb_neq _ _) Tr). reflexivity. }
+    pose proof W as [L [U A]].
+    pose proof (window_clip (bview b) off0 len0) as WC. cbn zeta in WC. rewrite (bview_length _ W) in WC.
+    set (off := if bused b <? off0 + len0 then (if bused b <=? off0 then bused b else off0) else off0) in *.
+    set (len := if bused b <? off0 + len0 then (if bused b <=? off0 then 0 else bused b - off0) else len0) in *.
+    destruct WC as [WV Hw]. fold (win b off0 len0) in WV. fold (win b off len) in WV.
+    rewrite Tr, WV. clearbody off len.
+    assert (VW : wval hp (Some i) off len = Some (0, win b off len)).
+    { unfold wval. rewrite E. cbn [option_map]. rewrite Tr. reflexivity. }
+    destruct (Nat.eqb_spec esz 0) as [Ez|Ez].
+    + (* prepare memory *)
+      subst esz. destruct (Nat.eqb_spec nblk 0) as [Nz|Nz].
+      { cbn [sres_ok Nat.eqb]. split; [apply P_same|]. rewrite VW. unfold s_write, whint. cbn [Nat.eqb negb].
+        rewrite ?(proj2 (Nat.eqb_eq _ _) Nz). reflexivity. }
+      destruct from.
+      { cbn [sres_ok]. split; [apply P_same|]. split; [|exact VW].
+        unfold s_write, whint. cbn [Nat.eqb negb]. rewrite ?(proj2 (Nat.eqb_neq _ _) Nz). reflexivity. }
+      destruct (Nat.leb_spec nblk (bsize b - (off + len))) as [Ha|Ha].
+      { cbn [sres_ok Nat.eqb]. split; [apply P_same|]. rewrite VW. unfold s_write, whint. cbn [Nat.eqb negb hacc].
+        rewrite ?(proj2 (Nat.eqb_neq _ _) Nz). reflexivity. }
+      pose proof (array_slice_sem hp (Some i) (off + len) nblk 0 false OK) as S.
+      destruct (array_slice hp (Some i) (off + len) nblk) as [hp1 a1 n|hp1 a1|]; [| |contradiction].
+      * destruct S as [_ [j [b' [-> [E' [T [R' [I' [W' [S' [Tr' V']]]]]]]]]]].
+        unfold tl_of, aval in Tr', V'. rewrite E in Tr', V'. cbn [option_map fst snd bval] in Tr', V'.
+        rewrite E'.
+        assert (U' : bused b' = off + len + nblk).
+        { rewrite <- (bview_length _ W'), V', ext_length, (bview_length _ W). lia. }
+        pose proof (buffer_cut_sem b' (off + len) nblk W') as Ct.
+        assert (CC : cut_cond b' (off + len) nblk = true).
+        { unfold cut_cond. rewrite U', Tr', Tr. rewrite ?(proj2 (Nat.eqb_neq _ _) Nz).
+          rewrite !(proj2 (Nat.leb_le _ _)) by lia. reflexivity. }
+        destruct (buffer_cut b' (off + len) nblk) as [b2| |]; [|congruence|contradiction].
+        destruct Ct as [_ [[K1 [K2 [K3 [K4 K5]]]] [W2 V2]]].
+        cbn [sres_ok Nat.eqb].
+        destruct (inplace_done hp (Some i) hp1 j b' b2 T E' R' ltac:(lia) W2) as [T2 AV2].
+        split; [exact T2|]. unfold s_write, whint. cbn [Nat.eqb negb hacc].
+        rewrite ?(proj2 (Nat.eqb_neq _ _) Nz). unfold D. f_equal.
+        unfold wval. rewrite hget_hset, Nat.eqb_refl, (proj2 (Nat.ltb_lt _ _) (hget_lt _ _ _ E')).
+        cbn [andb option_map]. rewrite K4, Tr', Tr. f_equal. f_equal.
+        unfold win. rewrite V2, (proj2 (Nat.eqb_neq _ _) Nz), V'. unfold cutv, ext.
+        pose proof (bview_length _ W) as BL. list_eq_k ltac:(fun i => idtac).
+      * destruct S as [_ [-> ->]]. cbn [sres_ok]. split; [apply P_same|]. split; [|exact VW].
+        unfold s_write, whint. cbn [Nat.eqb negb hacc]. rewrite ?(proj2 (Nat.eqb_neq _ _) Nz). reflexivity.
+    + (* data blocks *)
+      rewrite ?(proj2 (Nat.eqb_neq _ _) Ez).
+      set (data := norm (nblk * esz) from d).
+      assert (Ld : length data = nblk * esz) by apply norm_length.
+      assert (FastOK : forall hp1 b1 off1, ptrans hp (Some i) hp1 (Some i) -> hget hp1 i = Some b1 -> buf_wf b1 ->
+                bref b1 = 1 -> btr b1 = 0 -> off1 + len <= bused b1 -> win b1 off1 len = win b off len ->
+                sres_ok hp (Some i) (Some (0, win b off len)) nblk esz from d
+                  (fast_append hp1 i off1 len nblk esz data)).
+      { intros hp1 b1 off1 T1 E1 W1 R1 Tr1 Hw1 Wn.
+        pose proof (fast_append_sem hp (Some i) hp1 i b1 off1 len nblk esz data T1 E1 W1 R1 Tr1 Hw1 Ez Ld) as F.
+        destruct (fast_append hp1 i off1 len nblk esz data) as [hp' a' off' len' n| |]; try contradiction.
+        destruct F as [b2 [-> [E2 [T2 [Tr2 [-> [Hn Wv]]]]]]]. cbn [sres_ok].
+        split; [exact T2|]. rewrite ?(proj2 (Nat.eqb_neq _ _) Ez).
+        unfold s_write, whint. cbn [Nat.eqb negb hcnt]. rewrite ?(proj2 (Nat.eqb_neq _ _) Ez).
+        rewrite (proj2 (Nat.ltb_ge _ _) Hn). unfold Dn. f_equal.
+        unfold wval. rewrite E2. cbn [option_map]. rewrite Tr2, Wv, Wn. reflexivity. }
+      destruct (bimm b || shared b) eqn:Pv; cbn [negb].
+      { apply slow_write_some; auto. }
+      apply orb_false_elim in Pv. destruct Pv as [Im Sh]. unfold shared in Sh. apply Nat.leb_gt in Sh.
+      assert (R1 : bref b = 1) by lia.
+      destruct (Nat.eqb_spec nblk 0) as [Nz|Nz].
+      { cbn [sres_ok]. split; [apply P_same|]. rewrite ?(proj2 (Nat.eqb_neq _ _) Ez).
+        unfold s_write, whint. cbn [Nat.eqb negb hcnt]. rewrite ?(proj2 (Nat.eqb_neq _ _) Ez).
+        subst nblk. cbn [Nat.ltb Nat.leb Nat.mul firstn]. rewrite app_nil_r, VW. reflexivity. }
+      destruct (Nat.leb_spec esz (bsize b - (off + len))) as [Hav|Hav].
+      { apply (FastOK hp b off (P_same _ _) E W R1 Tr Hw eq_refl). }
+      destruct (negb (off =? 0) && (esz <=? bsize b - (off + len) + off)) eqn:Mv.
+      2:{ apply slow_write_some; auto. }
+      (* move the window to the front *)
+      assert (Mm : exists m, (if len =? 0 then Ok (bdata b) else mv (bdata b) 0 off len) = Ok m /\
+                   length m = bsize b /\ firstn len m = firstn len (skipn off (bdata b))).
+      { destruct (Nat.eqb_spec len 0) as [Lz|Lz].
+        - exists (bdata b). split; [reflexivity|]. split; [exact L|]. subst len. reflexivity.
+        - rewrite mv_sem by lia. eexists. split; [reflexivity|]. split; [len_simp; lia|].
+          simpl firstn at 2. rewrite app_nil_l. rewrite firstn_app, firstn_firstn, Nat.min_id.
+          rewrite firstn_length, skipn_length. replace (len - Nat.min len (length (bdata b) - off)) with 0 by lia.
+          simpl. apply app_nil_r. }
+      destruct Mm as [m [-> [Lm Fm]]].
+      set (b1 := set_used (set_data b m) len).
+      assert (W1 : buf_wf b1).
+      { subst b1. unfold buf_wf; bsimp. split; [exact Lm|]. split; [lia|intros Z; congruence]. }
+      destruct (inplace_done hp (Some i) hp i b b1 (P_same _ _) E R1 ltac:(subst b1; bsimp; lia) W1) as [T1 _].
+      apply (FastOK (hset hp i b1) b1 0 T1); auto.
+      * rewrite hget_hset, Nat.eqb_refl, (proj2 (Nat.ltb_lt _ _) (hget_lt _ _ _ E)). reflexivity.
+      * subst b1; bsimp; lia.
+      * subst b1; bsimp; exact Tr.
+      * subst b1; bsimp; lia.
+      * unfold win, bview. subst b1. bsimp. simpl skipn. rewrite firstn_firstn, Nat.min_id, Fm.
+        list_eq.
+  - (* no buffer yet *)
+    cbn [negb wval].
+    set (off := if 0 <? off0 + len0 then (if 0 <=? off0 then 0 else off0) else off0).
+    set (len := if 0 <? off0 + len0 then (if 0 <=? off0 then 0 else 0 - off0) else len0).
+    assert (off = 0 /\ len = 0) as [-> ->].
+    { subst off len. destruct (Nat.ltb_spec 0 (off0 + len0)); cbn [Nat.leb]; lia. }
+    cbn [Nat.add Nat.sub].
+    destruct (Nat.eqb_spec esz 0) as [Ez|Ez].
+    + subst esz. destruct (Nat.eqb_spec nblk 0) as [Nz|Nz].
+      { cbn [sres_ok Nat.eqb]. split; [apply P_same|]. unfold s_write, whint. cbn [Nat.eqb].
+        rewrite ?(proj2 (Nat.eqb_eq _ _) Nz). reflexivity. }
+      destruct from.
+      { cbn [sres_ok]. split; [apply P_same|]. split; [|reflexivity].
+        unfold s_write, whint. cbn [Nat.eqb]. rewrite ?(proj2 (Nat.eqb_neq _ _) Nz). reflexivity. }
+      rewrite (proj2 (Nat.leb_gt nblk 0)) by lia.
+      pose proof (array_slice_sem hp None 0 nblk 0 false OK) as S.
+      destruct (array_slice hp None 0 nblk) as [hp1 a1 n|hp1 a1|]; [|destruct S as [S _]; discriminate|contradiction].
+      destruct S as [_ [j [b' [-> [E' [T [R' [I' [W' [S' [Tr' V']]]]]]]]]]].
+      unfold tl_of in Tr', V'. cbn [aval fst snd] in Tr', V'. rewrite E'.
+      assert (U' : bused b' = nblk).
+      { rewrite <- (bview_length _ W'), V', ext_length. cbn [length]. lia. }
+      pose proof (buffer_cut_sem b' 0 nblk W') as Ct.
+      assert (CC : cut_cond b' 0 nblk = true).
+      { unfold cut_cond. rewrite U', Tr'. rewrite ?(proj2 (Nat.eqb_neq _ _) Nz).
+        rewrite !(proj2 (Nat.leb_le _ _)) by lia. reflexivity. }
+      destruct (buffer_cut b' 0 nblk) as [b2| |]; [|congruence|contradiction].
+      destruct Ct as [_ [[K1 [K2 [K3 [K4 K5]]]] [W2 V2]]].
+      cbn [sres_ok Nat.eqb].
+      destruct (inplace_done hp None hp1 j b' b2 T E' R' ltac:(lia) W2) as [T2 AV2].
+      split; [exact T2|]. unfold s_write, whint. cbn [Nat.eqb hacc].
+      rewrite ?(proj2 (Nat.eqb_neq _ _) Nz). unfold D. f_equal.
+      unfold wval. rewrite hget_hset, Nat.eqb_refl, (proj2 (Nat.ltb_lt _ _) (hget_lt _ _ _ E')).
+      cbn [andb option_map]. rewrite K4, Tr'. reflexivity.
+    + rewrite ?(proj2 (Nat.eqb_neq _ _) Ez). unfold slow_write.
+      pose proof (filled_buf_sem (norm (nblk * esz) from d)) as F.
+      destruct (filled_buf _) as [nb| |]; try contradiction.
+      destruct F as [F1 [F2 [F3 [F4 F5]]]]. cbn [sres_ok]. split.
+      * apply (P_fresh0 hp None); assumption.
+      * rewrite ?(proj2 (Nat.eqb_neq esz 0) Ez). unfold s_write, whint. cbn [hcnt].
+        rewrite ?(proj2 (Nat.eqb_neq esz 0) Ez), Nat.ltb_irrefl. unfold Dn. f_equal.
+        unfold wval. rewrite hget_app_r by lia. rewrite Nat.sub_diag. cbn [hget nth_error option_map].
+        rewrite F3. f_equal. f_equal. unfold win. rewrite F4. simpl skipn. rewrite norm_length. reflexivity.
+Qed.
